@@ -268,6 +268,13 @@ func rtOracle(args, res string, kindsOnly bool) string {
 		if all {
 			return "the datagram decoder rejects frames that their own types' decoders accept"
 		}
+		// Marshal let a value through that no encoding can hold (C08 lists the limits), and what it wrote is not
+		// returned as a packet of its type
+		for _, p := range ps {
+			if why := limitExceeded(kindName(p), bodyTokens(p)); why != "" && p.MarshalSize() <= 262144 {
+				return "Marshal accepted a " + kindName(p) + " beyond a wire limit (" + why + ") and the datagram decoder does not return its output as that type"
+			}
+		}
 		return ""
 	}
 	if len(parts) < 2 || parts[1] == "err" {
